@@ -109,6 +109,11 @@ func (c *RefreshTokenGrantHandler) HandleTokenEndpointRequest(ctx context.Contex
 	rtLifespan := fosite.GetEffectiveLifespan(request.GetClient(), fosite.GrantTypeRefreshToken, fosite.RefreshToken, c.Config.GetRefreshTokenLifespan(ctx))
 	if rtLifespan > -1 {
 		request.GetSession().SetExpiresAt(fosite.RefreshToken, time.Now().UTC().Add(rtLifespan).Round(time.Second))
+	} else {
+		// Unlimited lifetime: the session was cloned from the token being exchanged and still carries that
+		// token's expiry (set under another grant's lifespan). Without clearing it the new refresh token would
+		// silently expire at the old token's instant instead of never.
+		request.GetSession().SetExpiresAt(fosite.RefreshToken, time.Time{})
 	}
 
 	return nil
